@@ -45,6 +45,13 @@ def get_func_in_module(module: str, qualname: str) -> Callable[..., Any]:
         raise InvalidTypeError(
             f"{module}.{qualname} is of type '{type(func)}', not function."
         )
+    if "<locals>" in getattr(func, "__qualname__", ""):
+        # e.g. a name now bound to a wrapper (lru_cache, functools.wraps)
+        # around a function created inside another function: it cannot be
+        # looked up by its own name, so no stub can be written for it
+        raise InvalidTypeError(
+            f"{module}.{qualname} wraps a function defined in a local scope."
+        )
     return func  # type: ignore[no-any-return]
 
 
